@@ -39,8 +39,21 @@ thread_local! {
     static CURRENT_TRACE: RefCell<Option<Trace>> = const { RefCell::new(None) };
 }
 
+/// C16 under reduced feature sets: a failure of any property counts for the requested one
+pub static ANY_PROP: std::sync::atomic::AtomicBool = std::sync::atomic::AtomicBool::new(false);
+
+pub fn prop_matches(props: &[&str], prop: &str) -> bool {
+    ANY_PROP.load(Ordering::Relaxed) || props.contains(&prop)
+}
+
 static ABORT_DIR: Mutex<Option<String>> = Mutex::new(None);
 static ABORT_PROP: Mutex<Option<String>> = Mutex::new(None);
+
+/// Panics raised by the harness's own code (its source paths are relative) are
+/// harness errors, never verdicts about the library
+pub fn is_harness_panic(msg: &str) -> bool {
+    msg.contains(" at src/")
+}
 
 pub fn take_panic_message() -> String {
     PANIC_MSG.with(|m| std::mem::take(&mut *m.borrow_mut()))
@@ -179,9 +192,48 @@ struct Found {
     harness_error: Option<String>,
 }
 
+/// A recorded, unrepaired defect: violations of `prop` by `check` whose detail
+/// contains `key` are reported as KNOWN-FINDING, not as violations.
+#[derive(Clone, Debug)]
+struct Known {
+    prop: String,
+    check: String,
+    key: String,
+}
+
+fn load_known(path: &str) -> Vec<Known> {
+    let mut v = Vec::new();
+    let Ok(text) = std::fs::read_to_string(path) else { return v };
+    for line in text.lines() {
+        let line = line.trim();
+        let Some(rest) = line.strip_prefix("known:") else { continue };
+        let mut prop = String::new();
+        let mut check = String::new();
+        let mut key = String::new();
+        let rest = rest.trim();
+        let (head, k) = match rest.find(" key=") {
+            Some(i) => (&rest[..i], rest[i + 5..].to_string()),
+            None => (rest, String::new()),
+        };
+        key.push_str(k.trim());
+        for t in head.split_whitespace() {
+            if let Some(x) = t.strip_prefix("property=") {
+                prop = x.to_string();
+            } else if let Some(x) = t.strip_prefix("check=") {
+                check = x.to_string();
+            }
+        }
+        if !prop.is_empty() && !check.is_empty() {
+            v.push(Known { prop, check, key });
+        }
+    }
+    v
+}
+
 struct Shared {
     stop_after: AtomicU64,
     found: Mutex<Vec<Found>>,
+    known: Vec<Known>,
 }
 
 struct ThreadOut {
@@ -190,6 +242,7 @@ struct ThreadOut {
     evaluations: u64,
     other_props: BTreeMap<String, u64>,
     samples: Vec<(u64, String)>,
+    known_hits: BTreeMap<String, u64>,
 }
 
 fn judge_and_record(
@@ -214,8 +267,17 @@ fn judge_and_record(
                     out.samples.push((index, trace.to_text()));
                 }
             }
-            let mine: Vec<Failure> = res.failures.iter().filter(|f| f.props.contains(&prop)).cloned().collect();
-            for f in res.failures.iter().filter(|f| !f.props.contains(&prop)) {
+            let mut mine: Vec<Failure> = res.failures.iter().filter(|f| prop_matches(f.props, prop)).cloned().collect();
+            mine.retain(|f| {
+                match shared.known.iter().find(|k| k.prop == prop && k.check == f.check && f.detail.contains(&k.key)) {
+                    Some(k) => {
+                        *out.known_hits.entry(format!("{} {}", k.check, k.key)).or_insert(0) += 1;
+                        false
+                    }
+                    None => true,
+                }
+            });
+            for f in res.failures.iter().filter(|f| !prop_matches(f.props, prop)) {
                 *out.other_props.entry(format!("{}:{}", f.props[0], f.check)).or_insert(0) += 1;
             }
             if !mine.is_empty() || res.harness_error.is_some() {
@@ -233,6 +295,17 @@ fn judge_and_record(
         Err(_) => {
             let msg = take_panic_message();
             let tick = exec::CURRENT_TICK.with(|c| c.get());
+            if is_harness_panic(&msg) {
+                shared.stop_after.fetch_min(index, Ordering::SeqCst);
+                shared.found.lock().unwrap().push(Found {
+                    index,
+                    variant: variant.to_string(),
+                    trace: trace.clone(),
+                    failures: Vec::new(),
+                    harness_error: Some(format!("harness panicked: {msg}")),
+                });
+                return None;
+            }
             // a panic is a C03 violation whatever property is being checked; it is
             // reported under the requested property only if that is C03 (or C14 in fault runs)
             let f = Failure {
@@ -241,7 +314,7 @@ fn judge_and_record(
                 tick: if tick == usize::MAX { 0 } else { tick },
                 detail: msg,
             };
-            if f.props.contains(&prop) {
+            if prop_matches(f.props, prop) {
                 shared.stop_after.fetch_min(index, Ordering::SeqCst);
                 shared.found.lock().unwrap().push(Found {
                     index,
@@ -268,6 +341,9 @@ fn run_seed(seed: u64, profile: &str, index: u64) -> u64 {
 
 fn cmd_run(a: &Args, sweep: bool) -> i32 {
     let prop = a.get("prop").unwrap_or("C03").to_string();
+    if a.get("all-props-as").is_some() {
+        ANY_PROP.store(true, Ordering::Relaxed);
+    }
     let seed = a.num("seed", 1);
     let runs = a.num("runs", 1000);
     let start = a.num("start", 0);
@@ -291,9 +367,11 @@ fn cmd_run(a: &Args, sweep: bool) -> i32 {
     *ABORT_DIR.lock().unwrap() = Some(replay_dir.clone());
     *ABORT_PROP.lock().unwrap() = Some(prop.clone());
 
+    let known = a.get("known").map(load_known).unwrap_or_default();
     let shared = Arc::new(Shared {
         stop_after: AtomicU64::new(u64::MAX),
         found: Mutex::new(Vec::new()),
+        known,
     });
     let t0 = Instant::now();
     let mut handles = Vec::new();
@@ -311,6 +389,7 @@ fn cmd_run(a: &Args, sweep: bool) -> i32 {
                         evaluations: 0,
                         other_props: BTreeMap::new(),
                         samples: Vec::new(),
+                        known_hits: BTreeMap::new(),
                     };
                     let profs: Vec<gen::Profile> = profiles.iter().map(|p| gen::profile(p).unwrap()).collect();
                     let mut i = start + t as u64;
@@ -337,6 +416,7 @@ fn cmd_run(a: &Args, sweep: bool) -> i32 {
     let mut evaluations = 0u64;
     let mut other: BTreeMap<String, u64> = BTreeMap::new();
     let mut samples: Vec<(u64, String)> = Vec::new();
+    let mut known_hits: BTreeMap<String, u64> = BTreeMap::new();
     for h in handles {
         let o = h.join().expect("worker thread died");
         total.merge(&o.stats);
@@ -346,6 +426,12 @@ fn cmd_run(a: &Args, sweep: bool) -> i32 {
             *other.entry(k).or_insert(0) += v;
         }
         samples.extend(o.samples);
+        for (k, v) in o.known_hits {
+            *known_hits.entry(k).or_insert(0) += v;
+        }
+    }
+    for (k, v) in &known_hits {
+        println!("KNOWN-FINDING: property={prop} {k} ({v} occurrence(s) in this run)");
     }
     samples.sort();
     samples.truncate(3);
@@ -378,7 +464,7 @@ fn cmd_run(a: &Args, sweep: bool) -> i32 {
             let mf = v
                 .failures
                 .iter()
-                .find(|x| x.check == fl.check && x.props.contains(&prop.as_str()))
+                .find(|x| x.check == fl.check && prop_matches(x.props, prop.as_str()))
                 .cloned()
                 .unwrap_or_else(|| fl.clone());
             let _ = std::fs::create_dir_all(&replay_dir);
@@ -435,7 +521,7 @@ fn sweep_one(seed: u64, index: u64, prop: &str, shared: &Shared, out: &mut Threa
     };
     if !base.failures.is_empty() || base.harness_error.is_some() {
         // the fault-free scenario itself fails: reported above if it concerns this property
-        if base.failures.iter().any(|f| f.props.contains(&prop)) || base.harness_error.is_some() {
+        if base.failures.iter().any(|f| prop_matches(f.props, prop)) || base.harness_error.is_some() {
             return;
         }
     }
@@ -547,6 +633,9 @@ fn cmd_replay(a: &Args) -> i32 {
         }
     };
     let prop = a.get("prop").map(|s| s.to_string());
+    if a.get("all-props-as").is_some() || prop.as_deref() == Some("C16") {
+        ANY_PROP.store(true, Ordering::Relaxed);
+    }
     *ABORT_DIR.lock().unwrap() = Some("/dev/null".into());
     CURRENT_TRACE.with(|t| *t.borrow_mut() = None);
     let verbose = a.get("verbose").is_some();
@@ -560,6 +649,10 @@ fn cmd_replay(a: &Args) -> i32 {
         Err(_) => {
             let msg = take_panic_message();
             let tick = exec::CURRENT_TICK.with(|c| c.get());
+            if is_harness_panic(&msg) {
+                eprintln!("HARNESS ERROR: harness panicked: {msg}");
+                return 2;
+            }
             println!("FAIL props=[C03,C14] check=panic event={tick} detail={msg}");
             match &prop {
                 Some(p) if p != "C03" && p != "C14" => 0,
@@ -578,7 +671,7 @@ fn cmd_replay(a: &Args) -> i32 {
             for f in &res.failures {
                 println!("FAIL props={:?} check={} event={} detail={}", f.props, f.check, f.tick, f.detail);
                 match &prop {
-                    Some(p) if !f.props.contains(&p.as_str()) => {}
+                    Some(p) if !prop_matches(f.props, p.as_str()) => {}
                     _ => rc = 1,
                 }
             }
@@ -617,7 +710,8 @@ fn cmd_digest(a: &Args) -> i32 {
     let runs = a.num("runs", 100);
     let threads = a.num("threads", 1).max(1) as usize;
     let profiles: Vec<String> = a.get("profiles").unwrap_or("mix").split(',').map(|s| s.to_string()).collect();
-    let results: Arc<Mutex<Vec<(u64, u64, u64)>>> = Arc::new(Mutex::new(Vec::new()));
+    let observable = a.get("observable").is_some();
+    let results: Arc<Mutex<Vec<(u64, u64, u64, u64, u8)>>> = Arc::new(Mutex::new(Vec::new()));
     let mut hs = Vec::new();
     for t in 0..threads {
         let results = results.clone();
@@ -635,18 +729,18 @@ fn cmd_digest(a: &Args) -> i32 {
                 };
                 let t2 = tr.clone();
                 let r = std::panic::catch_unwind(move || exec::execute(&t2, &ExecOpts::default()));
-                let od = match r {
+                let (od, obs, used) = match r {
                     Ok(res) => {
                         let mut s = String::new();
                         for f in &res.failures {
                             let _ = write!(s, "{}@{}:{};", f.check, f.tick, f.detail);
                         }
                         let _ = write!(s, "{:?}|{:?}|{:?}", res.stats.probes, res.calls_per_event, res.harness_error);
-                        prng::fnv1a(s.as_bytes())
+                        (prng::fnv1a(s.as_bytes()), res.obs_digest, res.used_mask)
                     }
-                    Err(_) => prng::fnv1a(take_panic_message().as_bytes()),
+                    Err(_) => (prng::fnv1a(take_panic_message().as_bytes()), 0, 7),
                 };
-                local.push((i, tr.digest(), od));
+                local.push((i, tr.digest(), od, obs, used));
                 i += threads as u64;
             }
             results.lock().unwrap().extend(local);
@@ -657,8 +751,12 @@ fn cmd_digest(a: &Args) -> i32 {
     }
     let mut r = results.lock().unwrap().clone();
     r.sort();
-    for (i, a, b) in r {
-        println!("{i} {a:016x} {b:016x}");
+    for (i, a, b, c, d) in r {
+        if observable {
+            println!("{i} {a:016x} {b:016x} {c:016x} {d}");
+        } else {
+            println!("{i} {a:016x} {b:016x}");
+        }
     }
     0
 }
